@@ -2282,7 +2282,13 @@ class Interp:
                 if isinstance(v, TupleV):
                     args.extend(v.items)
                 else:
-                    args.append(mk_fn("star", [as_value(v)]))
+                    va = v.single_atom() if isinstance(v, Form) else None
+                    if va and va[0] == "fn" and va[1] == "ifexp" and len(va[2]) == 3 and isinstance(va[2][1], TupleV) and isinstance(va[2][2], TupleV) \
+                            and len(va[2][1].items) == len(va[2][2].items) and v == Form.atom(va):
+                        # f(*(A if c else B)): the arguments are chosen together - element i is A[i] if c else B[i]
+                        args.extend(mk_fn("ifexp", [va[2][0], x_, y_]) for x_, y_ in zip(va[2][1].items, va[2][2].items))
+                    else:
+                        args.append(mk_fn("star", [as_value(v)]))
             else:
                 args.append(self.eval(a, st, fi, depth))
         kwargs = {}
@@ -2681,9 +2687,22 @@ class Interp:
             self.self_class = bound_self.cls
         try:
             self._bind_params(callee, sub, args, kwargs, bound_self=bound_self)
+            before = {p_: sub.env.get(p_) for p_ in callee.params}
             outs = self._exec_function(callee, sub, depth + 1)
         finally:
             self.self_class = old_self_class
+        # a helper that stores into the array it was handed (`def _blank_y(field): field[1] = 0`) has stored into the caller's array:
+        # the element store recorded on the parameter is written through to the argument when that is a plain name or attribute
+        try:
+            pos = [p_ for p_ in callee.params if not (bound_self is not None and p_ == "self")]
+            for p_, a_node in zip(pos, getattr(n, "args", []) or []):
+                after = sub.env.get(p_)
+                if isinstance(a_node, (ast.Name, ast.Attribute)) and isinstance(after, Form) and isinstance(before.get(p_), Form) and vkey(after) != vkey(before[p_]):
+                    aa = after.single_atom()
+                    if aa is not None and aa[0] == "fn" and aa[1] == "setitem" and aa[2] and isinstance(aa[2][0], Form) and vkey(aa[2][0]) == vkey(before[p_]):
+                        self.assign(a_node, after, st, fi, depth, getattr(self, "_cur_stmt", None) or n)
+        except Exception:
+            pass
         rets = [o for o in outs if o.kind == "return"]
         raises = [o for o in outs if o.kind == "raise"]
         rec_out = getattr(rec, "result", None)
@@ -2947,6 +2966,12 @@ class Interp:
                     return args[0] if name == "max" else args[1]
                 if sg in ("le0", -1):
                     return args[1] if name == "max" else args[0]
+        if name in ("all", "any") and len(args) == 1 and not kwargs and isinstance(args[0], TupleV) and 1 <= len(args[0].items) <= 32 \
+                and all(isinstance(x_, (Form, Const)) for x_ in args[0].items):
+            # all((c1, c2, ...)) over a literal sequence of conditions is their conjunction
+            return args[0].items[0] if len(args[0].items) == 1 else mk_fn("and" if name == "all" else "or", list(args[0].items))
+        if name == "divmod" and len(args) == 2 and not kwargs and all(isinstance(a_, Form) for a_ in args):
+            return TupleV([mk_fn("floordiv", list(args)), mk_fn("mod", list(args))])          # (a // b, a % b)
         if name in ("list", "tuple") and len(args) == 1:
             if isinstance(args[0], TupleV):
                 return TupleV(args[0].items, name)
@@ -2957,7 +2982,10 @@ class Interp:
         if name == "map" and len(args) == 2 and not kwargs and isinstance(args[1], TupleV) and len(args[1].items) <= 32:
             # map over a literal sequence: element by element
             return TupleV([self._call_value(args[0], [item], {}, st, fi, depth, n, CallRec(n, None, [], {}, [], fi, depth, st.facts)) for item in args[1].items], "list")
-        if name == "map" and len(args) == 2 and isinstance(args[0], FuncV) and not kwargs:
+        def _is_partial(v_):
+            a_ = v_.single_atom() if isinstance(v_, Form) else None
+            return a_ is not None and a_[0] == "fn" and a_[1] in ("functools.partial", "partial") and bool(a_[2])
+        if name == "map" and len(args) == 2 and (isinstance(args[0], FuncV) or _is_partial(args[0])) and not kwargs:
             # map(f, xs) is the comprehension [f(x) for x in xs]
             body = self._call_value(args[0], [iter_element(args[1])], {}, st, fi, depth, n, CallRec(n, None, [], {}, [], fi, depth, st.facts))
             return mk_fn("listcomp", [as_value(body), as_value(args[1])])
@@ -3168,7 +3196,7 @@ _ELEMENTWISE = {"sqrt", "abs", "absolute", "exp", "log", "log10", "log2", "cos",
                 "square", "negative", "array", "asarray", "float64"}
 _BUILTIN_TYPES = {"int", "float", "complex", "str", "bool", "list", "tuple", "dict", "set", "bytes", "object", "type", "bytearray", "frozenset", "range", "memoryview", "slice",
                   "Exception", "ValueError", "TypeError"}
-_BUILTINS = {"dict", "len", "int", "isinstance", "type", "getattr", "super", "str", "min", "max", "list", "tuple", "zip", "range",
+_BUILTINS = {"dict", "len", "int", "isinstance", "type", "getattr", "super", "str", "min", "max", "list", "tuple", "zip", "range", "divmod", "all", "any",
              "abs", "round", "print", "callable", "float", "sum", "map", "dir", "setattr", "delattr", "hasattr", "id", "slice", "next", "enumerate", "reversed"}
 _INLINE_METHODS = {"len", "fs", "sps", "dt", "w", "t", "abs", "power", "type", "copy", "__getitem__", "__call__", "__mul__",
                    "__rmul__", "__add__", "__radd__", "__sub__", "__rsub__", "ones", "zeros", "__len__"}
